@@ -2,6 +2,16 @@
 // cfg(kani) module that instantiates the crate's own macro:  mod vmN { define_moments!(MN, N); mod verif_kani {..} }
 // `MN` is aliased to `M`, `MAX_MOMENT` is the macro's own constant.
 
+// An iterator that promises nothing about its length (size_hint() is the default (0, None), no ExactSizeIterator,
+// no DoubleEndedIterator): glue that consults size hints or iterates from the back must still ingest every item.
+struct Opaque<I>(I);
+impl<I: Iterator> Iterator for Opaque<I> {
+    type Item = I::Item;
+    fn next(&mut self) -> Option<I::Item> {
+        self.0.next()
+    }
+}
+
 use crate::Merge;
 
 fn bits_eq(a: f64, b: f64) -> bool {
@@ -164,8 +174,11 @@ fn mn_ingest_glue() {
     }
     let bv: M = s.iter().cloned().collect();
     let br: M = s.iter().collect();
+    let bvo: M = Opaque(s.iter().cloned()).collect();
+    let bro: M = Opaque(s.iter()).collect();
     kani::cover!(l == 3);
     assert!(same_m(&a, &bv) && same_m(&a, &br));
+    assert!(same_m(&a, &bvo) && same_m(&a, &bro));
     let base = M { n: kani::any(), avg: kani::any(), m: kani::any() };
     let mut e0 = base.clone();
     for &x in s {
@@ -176,8 +189,8 @@ fn mn_ingest_glue() {
     let mut e2 = base.clone();
     e2.extend(s.iter());
     let mut e3 = base.clone();
-    e3.extend(s[..cut].iter().cloned());
-    e3.extend(s[cut..].iter());
+    e3.extend(Opaque(s[..cut].iter().cloned()));
+    e3.extend(Opaque(s[cut..].iter()));
     assert!(same_m(&e1, &e0) && same_m(&e2, &e0) && same_m(&e3, &e0));
 }
 
